@@ -3,3 +3,7 @@ import LC.Props.C17
 #print axioms LC.V1Tok.encode_decode
 #print axioms LC.V1Tok.uncovered_is_space
 #print axioms LC.V1Tok.targetRange_ok
+#print axioms LC.V1Search.untangle_fuel
+#print axioms LC.V1Search.post_inv
+#print axioms LC.V1Search.post_ne
+#print axioms LC.V1Search.candidate_byte_range
